@@ -1279,12 +1279,21 @@ _getcache(LB* self, PyObject* provided, PyObject* name)
     if (cache == NULL)
         return NULL;
 
-    if (name != NULL && PyObject_IsTrue(name)) {
-        PyObject* named;
+    if (name != NULL) {
+        /* ``if name:`` -- a subclass of ``str`` can make this fail */
+        int truth = PyObject_IsTrue(name);
 
-        named = _subcache(cache, name);
-        Py_DECREF(cache);
-        cache = named;
+        if (truth < 0) {
+            Py_DECREF(cache);
+            return NULL;
+        }
+        if (truth) {
+            PyObject* named;
+
+            named = _subcache(cache, name);
+            Py_DECREF(cache);
+            cache = named;
+        }
     }
 
     return cache;
@@ -1889,6 +1898,8 @@ _generations_tuple(PyObject* ro)
 
     l = PyTuple_GET_SIZE(ro);
     generations = PyTuple_New(l);
+    if (generations == NULL)
+        return NULL;
     for (i = 0; i < l; i++) {
         PyObject* generation;
 
